@@ -331,7 +331,9 @@ impl<'a> World<'a> {
             }
             Action::PeerSend => {
                 let can = self.peer_sendable();
-                let n = if can > 1 && self.rng.chance(2, 3) { self.rng.range(1, can.min(self.peer.max_piece.max(1))) } else { can.min(self.peer.max_piece.max(1)) };
+                let n = if self.peer.max_piece == usize::MAX {
+                    can // (sentinel: the peer always sends everything it may send in one piece)
+                } else if can > 1 && self.rng.chance(2, 3) { self.rng.range(1, can.min(self.peer.max_piece.max(1))) } else { can.min(self.peer.max_piece.max(1)) };
                 let s = self.peer.sent;
                 let chunk = self.peer.wire[s..s + n].to_vec();
                 self.peer.sent += n;
